@@ -136,3 +136,160 @@ def gen_transport(rng, tier):
                           dt=rng.choice(dts + [Fr(1, 16), Fr(16)]), d=rng.randrange(K2), ratio=rng.choice([Fr(2, 5), Fr(1, 4), Fr(1, 2)]),
                           cur=Fr(rng.choice([7, 1000])), frac=Fr(rng.choice([0, 1, 10, 50, 99]), 100), minidx=rng.randrange(K2)))
     return cases
+
+
+# ---------------------------------------------------------------- C08: grid histories
+CONFIGS = [(0, 8, 4, 2, 4, True), (0, 8, 4, 2, 6, True), (0, 8, 4, 2, 4, False), (0, 6, 3, 2, 4, True), (0, 4, 4, 2, 6, True)]
+
+
+def pattern(k, p):
+    if p == 0: return [Fr(0)] * k
+    if p == 1: return [Fr(5)] * k
+    if p == 2: return [Fr(2) if i == 1 else Fr(0) for i in range(1, k + 1)]
+    if p == 3: return [Fr(5) if i == (k + 1) // 2 else (Fr(1, 2) if i == k else Fr(0)) for i in range(1, k + 1)]
+    if p == 4: return [Fr(i) for i in range(1, k + 1)]
+    if p == 5: return [Fr(3) if 4 * i <= k + 3 else Fr(0) for i in range(1, k + 1)]
+    if p == 6: return [Fr(7) if i == k else Fr(0) for i in range(1, k + 1)]
+    raise ValueError(p)
+
+
+LOAD_DATA = [Fr(0), Fr(1), Fr(3, 2), Fr(4), Fr(4), Fr(6), Fr(9), Fr(100)]
+
+
+def alphabet(bins, backed, allow_remesh=True):
+    ops = [dict(op="reset", rb=True), dict(op="reset", rb=False), dict(op="add", k=1), dict(op="add", k=2)]
+    if allow_remesh:
+        for (a, b) in ((0, 6), (0, 12)):
+            for n in (0, 2, 3):
+                ops.append(dict(op="change", a=Fr(a), b=Fr(b), n=n, reset=False))
+        ops += [dict(op="adjust", chk=True), dict(op="adjust", chk=False)]
+    ops.append(dict(op="change", a=Fr(0), b=Fr(20), n=4, reset=True))
+    for p in range(7):
+        ops.append(dict(op="update", p=p))
+    ops.append(dict(op="backup"))
+    if backed:
+        ops.append(dict(op="revert"))
+    ops += [dict(op="load", data=LOAD_DATA), dict(op="loadfn", c=Fr(2)), dict(op="moments")]
+    return ops
+
+
+def op_json(op, bins):
+    o = dict(op)
+    if o["op"] == "update":
+        o = {"op": "update", "v": [rat(v) for v in pattern(bins, op["p"])]}
+    elif o["op"] == "change":
+        o["a"], o["b"] = rat(o["a"]), rat(o["b"])
+    elif o["op"] == "load":
+        o["data"] = [rat(v) for v in o["data"]]
+    elif o["op"] == "loadfn":
+        o["c"] = rat(o["c"])
+    elif o["op"] == "moments":
+        o["N"] = [rat(Fr(3 * i + 1)) for i in range(bins)]
+        o["w"] = [rat(Fr(i % 3 + 1, 2)) for i in range(bins)]
+    return o
+
+
+def snapshot(p):
+    return dict(bins=int(p.bins), min=float(p.min), max=float(p.max), bounds=[float(v) for v in p.PSDbounds],
+                size=[float(v) for v in p.PSDsize], psd=[float(v) for v in p.PSD], psdlen=len(p.PSD))
+
+
+def apply_op(p, op):
+    """apply one operation to the real object; returns extra observations"""
+    k = op["op"]
+    extra = {}
+    if k == "reset": p.reset(op["rb"])
+    elif k == "add": p.addSizeClasses(op["k"])
+    elif k == "change":
+        p.changeSizeClasses(float(op["a"]), float(op["b"]), None if op["n"] == 0 else op["n"], op["reset"])
+    elif k == "adjust":
+        ch, ni = p.adjustSizeClassesEuler(op["chk"])
+        extra["ret"] = [bool(ch), None if ni is None else int(ni)]
+    elif k == "update":
+        p.UpdatePBMEuler(1.0, np.array([float(v) for v in pattern(p.bins, op["p"])]))
+    elif k == "backup": p.createBackup()
+    elif k == "revert": p.revert()
+    elif k == "load": p.LoadDistribution(np.array([float(v) for v in op["data"]]))
+    elif k == "loadfn": p.LoadDistributionFunction(lambda R: float(op["c"]) * R)
+    elif k == "moments":
+        N = np.array([float(3 * i + 1) for i in range(p.bins)])
+        w = np.array([(i % 3 + 1) / 2.0 for i in range(p.bins)])
+        keep = (p.PSD.copy(), p.PSDbounds.copy())
+        extra["moments"] = dict(m0=float(p.ZeroMomentFromN(N)), m1=float(p.FirstMomentFromN(N)), m2=float(p.SecondMomentFromN(N)),
+                                m3=float(p.ThirdMomentFromN(N)), cum3=[float(v) for v in p.CumulativeMomentFromN(N, 3)],
+                                w1=float(p.WeightedMomentFromN(N, 1, w)),
+                                cumw2=[float(v) for v in p.CumulativeWeightedMomentFromN(N, 2, w)])
+        extra["pure"] = bool(np.array_equal(keep[0], p.PSD) and np.array_equal(keep[1], p.PSDbounds))
+    return extra
+
+
+def run_history(cfg, ops):
+    cmin, cmax, bins, minb, maxb, adaptive = cfg
+    p = PopulationBalanceModel(float(cmin), float(cmax), bins, minb, maxb)
+    p.setAdaptiveBinSize(adaptive)
+    out = {"init": snapshot(p), "steps": []}
+    js = []
+    for op in ops:
+        js.append(op_json(op, p.bins))
+        try:
+            extra = apply_op(p, op)
+            st = snapshot(p)
+            st.update(extra)
+        except Exception as ex:  # noqa
+            st = {"exception": type(ex).__name__, "msg": str(ex)[:200]}
+            out["steps"].append(st)
+            break
+        out["steps"].append(st)
+    return js, out
+
+
+def gen_histories(rng, tier):
+    """all histories of length <= L over the alphabet (with the one-remesh-per-distribution rule of PBM_MC),
+    plus seeded longer ones"""
+    L = 2 if tier == "quick" else 3
+    hist = []
+
+    def rec(cfg, prefix, bins_track, backed, ugly, prev_ugly, depth):
+        if depth == 0:
+            return
+        # bins / backed / ugly are tracked by actually running the real object on the prefix (cheap)
+        for op in alphabet(None, backed, allow_remesh=not ugly):
+            seq = prefix + [op]
+            hist.append((cfg, seq))
+            if depth > 1:
+                js, out = run_history(cfg, seq)
+                last = out["steps"][-1]
+                if "exception" in last:
+                    continue
+                k = op["op"]
+                prev = out["steps"][-2] if len(out["steps"]) > 1 else out["init"]
+                nb, nu, npv = backed, ugly, prev_ugly
+                if k == "backup": nb, npv = True, ugly
+                if k in ("reset", "change", "adjust"): nb = False
+                if k == "change" and not op["reset"]:
+                    nu = last["bounds"] != prev["bounds"]
+                elif k == "adjust":
+                    nu = last["psd"][:len(prev["psd"])] != prev["psd"] or last["bins"] < prev["bins"]
+                elif k in ("update", "load", "loadfn", "reset") or (k == "change" and op["reset"]): nu = False
+                elif k == "revert": nu = prev_ugly
+                rec(cfg, seq, None, nb, nu, npv, depth - 1)
+
+    for cfg in (CONFIGS if tier == "thorough" else CONFIGS[:3]):
+        rec(cfg, [], None, False, False, False, L)
+    # seeded longer histories (length 4-6) with at most one remesh per distribution
+    nrand = 300 if tier == "quick" else 3000
+    for _ in range(nrand):
+        cfg = rng.choice(CONFIGS)
+        seq, backed, ugly, prev_ugly = [], False, False, False
+        for _ in range(rng.randint(4, 6)):
+            op = rng.choice(alphabet(None, backed, allow_remesh=not ugly))
+            seq.append(op)
+            k = op["op"]
+            if k == "backup": backed, prev_ugly = True, ugly
+            elif k == "reset" or k == "change": backed = False
+            if k == "change" and not op["reset"]: ugly = True
+            elif k == "adjust": ugly = True; backed = False
+            elif k in ("update", "load", "loadfn", "reset") or (k == "change" and op["reset"]): ugly = False
+            elif k == "revert": ugly = prev_ugly
+        hist.append((cfg, seq))
+    return hist
